@@ -207,6 +207,32 @@ Fixpoint run_ser (c : config) (sel : selector) (s : state) (ls : list label) : o
 Definition reachable_ser (c : config) (sel : selector) (s : state) : Prop :=
   exists r ls, run_ser c sel (init r) ls = Some s.
 
+(* NOT the code as written — the repair the refutation of the cap points to: the increment itself
+   re-checks the cap (n := AddInt64(&Conns, 1); if MaxConns > 0 && n > MaxConns { AddInt64(&Conns, -1);
+   treat as "no host" }, or a CAS loop), so a request that lost the race is not forwarded.
+   Every other step is unchanged. *)
+Definition step_res (c : config) (sel : selector) (s : state) (l : label) : option state :=
+  match l with
+  | LBegin t =>
+      match nth_error (threads s) t with
+      | Some (Selected (Some h)) =>
+          if full c s h
+          then Some {| conns := conns s; fails := fails s; timers := timers s; fired := fired s;
+                       flog := flog s; now := now s; threads := set_nth (threads s) t (Selected None);
+                       robin := robin s |}
+          else step c sel s l
+      | _ => None
+      end
+  | _ => step c sel s l
+  end.
+Fixpoint run_res (c : config) (sel : selector) (s : state) (ls : list label) : option state :=
+  match ls with
+  | [] => Some s
+  | l :: r => match step_res c sel s l with Some s' => run_res c sel s' r | None => None end
+  end.
+Definition reachable_res (c : config) (sel : selector) (s : state) : Prop :=
+  exists r ls, run_res c sel (init r) ls = Some s.
+
 Definition sel_sound (c : config) (sel : selector) : Prop :=
   forall s h r, sel s = (Some h, r) -> available c s h = true.
 
